@@ -1949,3 +1949,89 @@ Theorem C02_F_C02_1_refuted :
   end = true.
 Proof. exact F_C02_1_refuted. Qed.
 Print Assumptions C02_F_C02_1_refuted.
+
+(* ---------- R.6  path_segments_mut sessions on file records: the reach theorem C02_reach_partial9 ---------- *)
+(* ReachC9 (Proofs/C02_Reach10.v) = every constructor of ReachC8 and RC9_psm_file: on a file record of the history a
+   path_segments_mut session (any sequence of clear / pop / pop_if_empty / push / extend) with the premises of
+   C06_psm_canon_file - session_arg_nd ops = true (computable on the arguments: no pushed segment begins, after the removal
+   of TAB / LF / CR, with an ASCII letter followed by ':' or '|'), Forall psm_op_usv ops (the arguments are &str), the
+   session returns (u', SOk), nlen (ser u') <= u32::MAX.  All constructors are constructors of the one inductive
+   relation, so every old step may follow a session.  The invariant 'Canon or FileCanon' is kept by the new constructor
+   (C02_psm_file_CanonF, from Proofs/C06_SegFileClsEx.psm_FileCanon_arg = C06_psm_canon_file).
+   STILL OUTSIDE ReachC9 and inside Reachable4, on file records: sessions that push a drive-letter-like segment
+   (session_arg_nd = false; some of them leave Known_file_drive untouched, e.g. push("c:d") below a first segment) and
+   Url::set_path with an argument without leading slash on a record without a host; what lies behind these steps. *)
+From RU Require Import Proofs.C06_Segments Proofs.C06_SegFileClsEx Proofs.C02_Reach10.
+
+Theorem C02_psm_file_CanonF : forall dbg hp hpo hd, HostOK2 hp hpo hd -> forall u ops u',
+  (Canon hp hpo hd u \/ FileCanon hp hd u) -> is_file u = true -> session_arg_nd ops = true -> Forall psm_op_usv ops ->
+  path_segments_session dbg u ops = Some (u', SOk) -> nlen (ser u') <= U32_MAX_P ->
+  Canon hp hpo hd u' \/ FileCanon hp hd u'.
+Proof. exact psm_file_CanonF. Qed.
+Check C02_psm_file_CanonF : forall dbg hp hpo hd, HostOK2 hp hpo hd -> forall u ops u',
+  (Canon hp hpo hd u \/ FileCanon hp hd u) -> is_file u = true -> session_arg_nd ops = true -> Forall psm_op_usv ops ->
+  path_segments_session dbg u ops = Some (u', SOk) -> nlen (ser u') <= U32_MAX_P ->
+  Canon hp hpo hd u' \/ FileCanon hp hd u'.
+Print Assumptions C02_psm_file_CanonF.
+
+Theorem C02_ReachC9_CanonF : forall dbg hp hpo hd, HostOK2 hp hpo hd -> host_nonempty hp hpo -> host_no_wdl hp hd -> forall u,
+  ReachC9 dbg hp hpo hd u -> Canon hp hpo hd u \/ FileCanon hp hd u.
+Proof. exact ReachC9_CanonF. Qed.
+Check C02_ReachC9_CanonF : forall dbg hp hpo hd, HostOK2 hp hpo hd -> host_nonempty hp hpo -> host_no_wdl hp hd -> forall u,
+  ReachC9 dbg hp hpo hd u -> Canon hp hpo hd u \/ FileCanon hp hd u.
+Print Assumptions C02_ReachC9_CanonF.
+
+Theorem C02_reach_partial9 : forall dbg hp hpo hd, HostOK2 hp hpo hd -> host_nonempty hp hpo -> host_no_wdl hp hd -> forall u,
+  ReachC9 dbg hp hpo hd u ->
+  Fixpoint_of_reparse dbg hp hpo hd u /\ wf_b u = true /\ ascii (ser u).
+Proof. exact reach_partial9. Qed.
+Check C02_reach_partial9 : forall dbg hp hpo hd, HostOK2 hp hpo hd -> host_nonempty hp hpo -> host_no_wdl hp hd -> forall u,
+  ReachC9 dbg hp hpo hd u ->
+  parse_url dbg hp hpo hd None None (utf8_lossy (ser u)) = POk u /\ wf_b u = true /\ ascii (ser u).
+Print Assumptions C02_reach_partial9.
+
+Theorem C02_reach_partial9_in_statement : forall dbg hp hpo hd, HostOK2 hp hpo hd -> host_nonempty hp hpo -> host_no_wdl hp hd ->
+  forall u, ReachC9 dbg hp hpo hd u -> Reachable4 dbg hp hpo hd u.
+Proof. exact ReachC9_Reachable4. Qed.
+Print Assumptions C02_reach_partial9_in_statement.
+
+(* ReachC9 is closed under the WHOLE join constructor of Reachable4 (as ReachC8 was) *)
+Theorem C02_reach_partial9_join_closed : forall dbg hp hpo hd, HostOK2 hp hpo hd -> host_nonempty hp hpo -> host_no_wdl hp hd ->
+  forall ovr b input u, ReachC9 dbg hp hpo hd b -> usv_list input ->
+  parse_url dbg hp hpo hd ovr (Some b) input = POk u -> Known_file_drive u = false -> ReachC9 dbg hp hpo hd u.
+Proof. exact ReachC9_join_closed. Qed.
+Print Assumptions C02_reach_partial9_join_closed.
+
+Theorem C02_reach_partial9_extends : forall dbg hp hpo hd u, ReachC8 dbg hp hpo hd u -> ReachC9 dbg hp hpo hd u.
+Proof. exact ReachC8_C9. Qed.
+Print Assumptions C02_reach_partial9_extends.
+
+Theorem C02_reach_partial9_model : forall dbg idna, IdnaOK idna -> forall u,
+  ReachC9 dbg (host_parse idna) host_parse_opaque host_display u ->
+  Fixpoint_of_reparse dbg (host_parse idna) host_parse_opaque host_display u /\ wf_b u = true /\ ascii (ser u).
+Proof. exact reach_partial9_model. Qed.
+Print Assumptions C02_reach_partial9_model.
+
+(* the hypotheses are met: file:///tmp/a, session push("b c"), then set_fragment("z") - as a computed history and as a
+   derivation of ReachC9 (RC9_parse, RC9_psm_file, RC9_step_file) on the host model *)
+Example C02_reach_partial9_inhabited : exists u0 u1 u2,
+  parse_url true mhp host_parse_opaque host_display None None (B "file:///tmp/a") = POk u0
+  /\ path_segments_session true u0 [PPush (B "b c")] = Some (u1, SOk)
+  /\ apply_op true mhp host_parse_opaque host_display u1 (OSetFragment (Some (B "z"))) = Some u2
+  /\ ser u2 = B "file:///tmp/a/b%20c#z"
+  /\ ReachC9 true mhp host_parse_opaque host_display u2.
+Proof. exact reach9_history. Qed.
+
+Example C02_reach_partial9_sessions :
+  m_session_ok "file:///tmp/a" [PPush (B "b c")] "file:///tmp/a/b%20c" = true
+  /\ m_is (m_hist "file:///tmp/a" [OPathSegments [PPush (B "b c")]; OSetFragment (Some (B "z"))]) "file:///tmp/a/b%20c#z" = true
+  /\ m_session_ok "file://h.x/a/b?q#f" [PPop; PPush (B "c d"); PExtend [B ".."; B "e/f"]; PPopIfEmpty] "file://h.x/a/c%20d/e%2Ff?q#f" = true
+  /\ m_is (m_hist "file://h.x/a/b?q#f" [OPathSegments [PPop; PPush (B "c d"); PExtend [B ".."; B "e/f"]; PPopIfEmpty]; OSetQuery None;
+                                        OPathSegments [PClear; PPush (B "x")]]) "file://h.x/x#f" = true
+  /\ session_arg_nd [PPush (B "b c")] && session_arg_nd [PPop; PPush (B "c d"); PExtend [B ".."; B "e/f"]; PPopIfEmpty]
+     && session_arg_nd [PClear; PPush (B "x")] && negb (session_arg_nd [PClear; PPush (B "C|")]) = true
+  /\ match m_session "file:///tmp/a" [PClear; PPush (B "C|")] with
+     | Some (u, SOk) => list_eqb (ser u) (B "file:///C:") && Known_file_drive u
+     | _ => false
+     end = true.
+Proof. exact reach9_example. Qed.
